@@ -11,25 +11,44 @@ variable {φ : Nat → Nat} {m m' : Mol}
 theorem relabel_bondHolds (bs : BondSpec) (e : Bond) : BondHolds bs (relabelBond φ e) ↔ BondHolds bs e := by
   cases bs <;> exact Iff.rfl
 
-theorem OpenMap.onRing (h : OpenMap φ m m') (x : Nat) (hx : x < m.natoms) : OnRing m' (φ x) ↔ OnRing m x := by
-  have hr := h.rings x hx
+/-- the three ring facts of an `OpenMap` from "the rings through the image are the images of the rings through the atom" -/
+theorem rings_facts_of_eq (hr : ringsThrough m' (φ x) = (ringsThrough m x).map (List.map φ)) :
+    (OnRing m' (φ x) ↔ OnRing m x) ∧
+    (∀ cn : CN, ((∃ r ∈ m'.rings, φ x ∈ r ∧ CNHolds cn r.length) ↔ (∃ r ∈ m.rings, x ∈ r ∧ CNHolds cn r.length))) ∧
+    (ringsThrough m' (φ x)).length = (ringsThrough m x).length := by
+  have key : ∀ (P : Nat → Prop), (∃ r ∈ m'.rings, φ x ∈ r ∧ P r.length) ↔ (∃ r ∈ m.rings, x ∈ r ∧ P r.length) := by
+    intro P
+    constructor
+    · rintro ⟨r', hr', hxr', hcn⟩
+      have : r' ∈ ringsThrough m' (φ x) := by
+        unfold ringsThrough; exact List.mem_filter.2 ⟨hr', by simpa using hxr'⟩
+      rw [hr] at this
+      obtain ⟨r, hrm, rfl⟩ := List.mem_map.1 this
+      unfold ringsThrough at hrm
+      obtain ⟨h1, h2⟩ := List.mem_filter.1 hrm
+      exact ⟨r, h1, by simpa using h2, by simpa using hcn⟩
+    · rintro ⟨r, hrm, hxr, hcn⟩
+      have : r.map φ ∈ ringsThrough m' (φ x) := by
+        rw [hr]; refine List.mem_map.2 ⟨r, ?_, rfl⟩
+        unfold ringsThrough; exact List.mem_filter.2 ⟨hrm, by simpa using hxr⟩
+      unfold ringsThrough at this
+      obtain ⟨h1, h2⟩ := List.mem_filter.1 this
+      exact ⟨r.map φ, h1, by simpa using h2, by simpa using hcn⟩
+  refine ⟨?_, fun cn => key (fun n => CNHolds cn n), by rw [hr, List.length_map]⟩
   unfold OnRing
-  constructor
-  · rintro ⟨r', hr', hxr'⟩
-    have : r' ∈ ringsThrough m' (φ x) := by
-      unfold ringsThrough; exact List.mem_filter.2 ⟨hr', by simpa using hxr'⟩
-    rw [hr] at this
-    obtain ⟨r, hrm, _⟩ := List.mem_map.1 this
-    unfold ringsThrough at hrm
-    obtain ⟨h1, h2⟩ := List.mem_filter.1 hrm
-    exact ⟨r, h1, by simpa using h2⟩
-  · rintro ⟨r, hrm, hxr⟩
-    have : r.map φ ∈ ringsThrough m' (φ x) := by
-      rw [hr]; refine List.mem_map.2 ⟨r, ?_, rfl⟩
-      unfold ringsThrough; exact List.mem_filter.2 ⟨hrm, by simpa using hxr⟩
-    unfold ringsThrough at this
-    obtain ⟨h1, h2⟩ := List.mem_filter.1 this
-    exact ⟨r.map φ, h1, by simpa using h2⟩
+  have := key (fun _ => True)
+  simpa using this
+
+/-- an `OpenMap` from the list form of the ring condition -/
+theorem OpenMap.ofRingsEq (inj : Function.Injective φ)
+    (atoms : ∀ x, x < m.natoms → m'.atom? (φ x) = m.atom? x)
+    (bonds : ∀ x y, x < m.natoms → y < m.natoms → m'.bondBetween (φ x) (φ y) = (m.bondBetween x y).map (relabelBond φ))
+    (closed : ∀ x y' e', x < m.natoms → m'.bondBetween (φ x) y' = some e' → ∃ y, y < m.natoms ∧ y' = φ y)
+    (double : ∀ x, x < m.natoms → ((∃ e ∈ m'.bonds, e.touches (φ x) = true ∧ e.kind = .double) ↔
+      (∃ e ∈ m.bonds, e.touches x = true ∧ e.kind = .double)))
+    (rings : ∀ x, x < m.natoms → ringsThrough m' (φ x) = (ringsThrough m x).map (List.map φ)) : OpenMap φ m m' :=
+  ⟨inj, atoms, bonds, closed, double, fun x hx => (rings_facts_of_eq (rings x hx)).1,
+    fun x hx => (rings_facts_of_eq (rings x hx)).2.1, fun x hx => (rings_facts_of_eq (rings x hx)).2.2⟩
 
 theorem OpenMap.typeHolds (h : OpenMap φ m m') (t : AtomType) (x : Nat) (hx : x < m.natoms) :
     TypeHolds m' t (φ x) ↔ TypeHolds m t x := by
@@ -98,24 +117,7 @@ theorem OpenMap.consHolds (h : OpenMap φ m m') (c : ACons) (x : Nat) (hx : x < 
     rw [h.neighbours t bs x hx]
   | ringSize neg cn =>
     simp only [ConsHolds]
-    have : (∃ r ∈ m'.rings, φ x ∈ r ∧ CNHolds cn r.length) ↔ (∃ r ∈ m.rings, x ∈ r ∧ CNHolds cn r.length) := by
-      have hr := h.rings x hx
-      constructor
-      · rintro ⟨r', hr', hxr', hcn⟩
-        have : r' ∈ ringsThrough m' (φ x) := by
-          unfold ringsThrough; exact List.mem_filter.2 ⟨hr', by simpa using hxr'⟩
-        rw [hr] at this
-        obtain ⟨r, hrm, rfl⟩ := List.mem_map.1 this
-        unfold ringsThrough at hrm
-        obtain ⟨h1, h2⟩ := List.mem_filter.1 hrm
-        exact ⟨r, h1, by simpa using h2, by simpa using hcn⟩
-      · rintro ⟨r, hrm, hxr, hcn⟩
-        have : r.map φ ∈ ringsThrough m' (φ x) := by
-          rw [hr]; refine List.mem_map.2 ⟨r, ?_, rfl⟩
-          unfold ringsThrough; exact List.mem_filter.2 ⟨hrm, by simpa using hxr⟩
-        unfold ringsThrough at this
-        obtain ⟨h1, h2⟩ := List.mem_filter.1 this
-        exact ⟨r.map φ, h1, by simpa using h2, by simpa using hcn⟩
+    have := h.ringSize x hx cn
     unfold Negated
     split
     · exact not_congr this
@@ -125,7 +127,7 @@ theorem OpenMap.consHolds (h : OpenMap φ m m') (c : ACons) (x : Nat) (hx : x < 
     rw [h.atoms x hx]
   | nRing neg cn =>
     simp only [ConsHolds]
-    rw [h.rings x hx, List.length_map]
+    rw [h.nRing x hx]
 
 theorem OpenMap.atomHolds (h : OpenMap φ m m') (qa : QAtom) (x : Nat) (hx : x < m.natoms) :
     AtomHolds m' qa (φ x) ↔ AtomHolds m qa x := by
